@@ -1092,6 +1092,41 @@ def alignment_rules(run, R="ALIGN"):
                 run.check(ok, R, "%s|absolute|%s" % (R, root), f.loc(t["span"]), "%s aligns addr_start x addr_unit + position" % root.rsplit("::", 1)[-1],
                           "%s asks for the padding of `%s`, expected the absolute bit address (addr_start x addr_unit + cur_position)" % (root, d[:160]))
     run.floor(R, "alignment computations", n, 2)
+    # `#labelalign` pads before labels only: a constant takes up no position, so nothing is padded for it
+    nl = 0
+    for f in prog.real_fns():
+        if not re.search(r"resolver::iter::ResolveIterator(::<.*>)?::next$", f.id):
+            continue
+        for bi, t in f.calls():
+            if not (t.get("resolved") or t.get("callee") or "").endswith("iter::bits_until_alignment"):
+                continue
+            nl += 1
+            behind_label = False
+            for b in f.dominators().get(bi, ()):
+                tt = f.blocks[b]["term"]
+                if tt["k"] != "switch" or b == bi or op_local(tt["discr"]) is None:
+                    continue
+                o = f.origin_local(op_local(tt["discr"]))
+                if o and o[0] == "discr":
+                    pl_ = o[2].get("place") if isinstance(o[2], dict) else None
+                    d_ = _deep(f, {"copy": pl_}, 5) if pl_ else ""
+                    vs = o[2].get("variants") or {}
+                    if d_.endswith(".kind") and "Label" in vs.values():
+                        edges = {vs.get(v): tg for v, tg in tt["targets"]}
+                        unlisted = [nm for nm in vs.values() if nm not in edges]
+                        if len(unlisted) == 1:
+                            edges[unlisted[0]] = tt["otherwise"]
+                        if "Label" in edges:
+                            yes = T.reach_following_consts(f, edges["Label"])
+                            no = set()
+                            for nm, tg in edges.items():
+                                if nm != "Label":
+                                    no |= T.reach_following_consts(f, tg)
+                            if bi in yes and bi not in no:
+                                behind_label = True
+            run.check(behind_label, R, "%s|labelalign|labels-only" % R, f.loc(t["span"]), "the `#labelalign` padding is applied only when the symbol is a label",
+                      "ResolveIterator::next pads to `#labelalign` for every top-level symbol, constants included: `#d8 1 / x = 5 / #d8 2` in a bank with `#labelalign 32` puts three padding bytes after the constant line (and `y = $` reads the padded address)")
+    run.floor(R, "labelalign padding sites", nl, 1)
     # an address that is not a whole number of units is an error unless guessing is allowed: the flag handed to eval_address is the
     # pass's own `can_guess()` and nothing else (or the constant of an audited caller)
     audited_const = {}      # (an entry for eval_asm::resolve_once was wrong: F50 - the block's confirming pass floored the address too)
